@@ -36,7 +36,8 @@ REQUIRED_COUNTERS = ["resolutions_checked", "undefined_checked", "strict_nameerr
 _st = {}
 
 SITES = ["ctx", "page", "body", "defarg", "encl", "loop", "mod", "nsimport", "builtin"]
-READS = ["body", "def", "defcb", "nested", "anonblock", "namedblock", "callbody", "calldef", "ctrl", "attr", "attr2", "filter"]
+READS = ["body", "def", "defcb", "nested", "anonblock", "namedblock", "callbody", "calldef", "ctrl", "attr", "attr2", "filter",
+         "elif", "except", "nesteddefault"]
 SHOW = (
     "<%!\n"
     "def show(v):\n"
@@ -66,6 +67,8 @@ def applicable(sites, read):
         return False
     if "filter" == read and ("loop" in s):
         return False
+    if read == "nesteddefault" and "loop" in s:
+        return False
     return True
 
 
@@ -79,7 +82,7 @@ def expected(sites, read, name):
     if "page" in s:
         body_locals.append("ctx" if "ctx" in s else "page")  # render(x=..) fills the page argument
     order = []
-    if read in ("body", "ctrl", "attr", "attr2", "callbody", "calldef", "anonblock", "filter"):
+    if read in ("body", "ctrl", "attr", "attr2", "callbody", "calldef", "anonblock", "filter", "elif", "except"):
         # python locals / closures of the body
         if "loop" in s:
             order.append("loop")
@@ -104,7 +107,7 @@ def expected(sites, read, name):
             return None
         order += body_locals
         order += [k for k in ("ctx", "builtin") if k in s]
-    elif read == "nested":
+    elif read in ("nested", "nesteddefault"):
         if "loop" in s:
             order.append("loop")
         if "defarg" in s:
@@ -166,6 +169,14 @@ def build(sites, read, name, layout):
         core = "<%%include file=\"${keep(%s)}${'inc.html'}\"/>[${KEPT[-1]}]" % name
     elif read == "filter":
         core = "[${'' | n,mkf(%s)}]" % name
+    elif read == "elif":
+        # the name occurs ONLY on a continuation line of the control structure
+        core = "%% if not 1:%s%% elif keep(%s) == '':%s[${KEPT[-1]}]%s%% endif%s" % (nl, name, nl, nl, nl)
+    elif read == "except":
+        core = "%% try:%s<%% raise ValueError() %%>%s%% except (ValueError if keep(%s) == '' else KeyError):%s[${KEPT[-1]}]%s%% endtry%s" % (nl, nl, name, nl, nl, nl)
+    elif read == "nesteddefault":
+        # the name occurs ONLY in the default of a def nested in another def: evaluated in the enclosing def
+        core = "${outer2()}"
     elif read == "callbody":
         core = '<%%call expr="wrap()">%s</%%call>' % ("[" + rd + "]")
     elif read == "calldef":
@@ -194,6 +205,8 @@ def build(sites, read, name, layout):
     arg = "%s='defarg:%s'" % (name, name) if "defarg" in s else ""
     if read in ("def", "defcb"):
         defs.append('<%%def name="rd(%s)">%s</%%def>' % (arg, maybe("[" + rd + "]", inner_loop)))
+    if read == "nesteddefault":
+        defs.append('<%%def name="outer2()">${inner2()}<%%def name="inner2(a_=show(%s))">[${a_}]</%%def></%%def>' % name)
     if read == "nested":
         encl = "<%% %s = 'encl:%s' %%>" % (name, name) if "encl" in s else ""
         defs.append(
